@@ -1,7 +1,7 @@
 #!/bin/bash
 # run_all.sh [quick|thorough] — every claimed check on the current tree, one summary line each.
 tier=${1:-quick}
-cd /verif
+cd "$(dirname "$0")/.."
 for id in $(python3 -c "import json;print(' '.join(c['property_id'] for c in json.load(open('MANIFEST.json'))['checks']))"); do
   out=$(./check $id --tier $tier 2>&1); rc=$?
   echo "$out" | grep -E "VIOLATION|KNOWN-FINDING|HARNESS-TROUBLE" | head -3
